@@ -90,7 +90,7 @@ pub fn meta(prop: Prop) -> Meta {
         Prop::C07 => Meta {
             level: "exploration",
             rule: "one evaluation = one seeded operation history {parse_record, parse_record_nocopy, reset} executed against one real TlsRecordsParser and, call by call, against the executable accumulate-then-parse reference model; distinct = distinct 64-bit fingerprints of the abstract trace (operation kind x content type x outcome class x size class per call); non-trivial = at least 2 records fed or at least one fault kind fired",
-            fault_kinds: &["fragment", "empty-fragment", "foreign-type-interleave", "nocopy-call", "reset", "oversize-stream", "announce-lie"],
+            fault_kinds: &["fragment", "empty-fragment", "foreign-type-interleave", "nocopy-call", "reset", "oversize-stream", "announce-lie", "header-length-disagrees"],
             cell_spaces: vec![("defrag", None)],
             real: &["TlsRecordsParser::{parse_record, parse_record_nocopy, reset, defrag_in_progress}", "parse_tls_record_with_header", "parse_tls_raw_record", "Debug of returned messages"],
             stub: &["record layer (seeded packing / split plan)", "peer message generator", "reference RFC encoder", "reference defragmentation model", "history-level split-group oracle"],
